@@ -58,8 +58,8 @@ type c10Row struct {
 
 type c10Scenario struct {
 	Row  c10Row `json:"row"`
-	I    int    `json:"i"` // vendored parameter set (prover's key / modulus)
-	J    int    `json:"j"` // vendored parameter set (verifier's ring-Pedersen parameters)
+	I    int    `json:"i"`    // vendored parameter set (prover's key / modulus)
+	J    int    `json:"j"`    // vendored parameter set (verifier's ring-Pedersen parameters)
 	Part int    `json:"part"` // witness class lz: the wire part (1-based) that must come out shortened; 0 = any
 	Seed int64  `json:"seed"`
 }
@@ -73,9 +73,9 @@ type c10Result struct {
 	Viols   []c13Viol
 	Drift   []string
 	Inconcl string
-	Parts   int     // wire parts observed
-	Short   int     // parts whose encoding is shorter than the longest part of its kind would be (leading zero bytes dropped)
-	Empty   int     // parts with an empty encoding
+	Parts   int // wire parts observed
+	Short   int // parts whose encoding is shorter than the longest part of its kind would be (leading zero bytes dropped)
+	Empty   int // parts with an empty encoding
 	Info    map[string]any
 	TwinOK  bool
 	Seconds float64
@@ -178,7 +178,6 @@ func c10Lens(parts [][]byte, r *c10Result) {
 		}
 	}
 }
-
 
 // c10ResidueParts: the wire parts (1-based) of a system that are residues of a modulus (their encoding can lose leading zeros)
 func c10ResidueParts(sys string) []int {
@@ -298,7 +297,9 @@ func c10Run(sc c10Scenario, keys []eckg.LocalPartySaveData) (res c10Result) {
 			res.Info["prover_runs"] = c10Grind(grind, 6000, func() bool {
 				pan = pcCall(func() { pf, err = schnorr.NewZKProof(sess, x, X, lib) })
 				return pan == "" && err == nil && pf != nil
-			}, func() bool { return c10HasShortPart(sc.Part, [][]byte{pf.Alpha.X().Bytes(), pf.Alpha.Y().Bytes(), pf.T.Bytes()}, []int{fl, fl, c10Len(q)}) })
+			}, func() bool {
+				return c10HasShortPart(sc.Part, [][]byte{pf.Alpha.X().Bytes(), pf.Alpha.Y().Bytes(), pf.T.Bytes()}, []int{fl, fl, c10Len(q)})
+			})
 			if pan != "" || err != nil || pf == nil {
 				proverFail(err, pan)
 				return
@@ -692,7 +693,10 @@ func c10Run(sc c10Scenario, keys []eckg.LocalPartySaveData) (res c10Result) {
 		res.Info["prover_runs"] = c10Grind(grind, 2500, func() bool {
 			pan2 = pcCall(func() { pw, err = mta.ProveBobWC(sess, cv.Ec, pk, NT, h1, h2, c1, c2, x, y, r, X, lib) })
 			return pan2 == "" && err == nil && pw != nil
-		}, func() bool { bz := pw.Bytes(); return c10HasShortPart(sc.Part, bz[:], append(append([]int{}, bobNom...), 0, 0, 0, 0, 32, 32)) })
+		}, func() bool {
+			bz := pw.Bytes()
+			return c10HasShortPart(sc.Part, bz[:], append(append([]int{}, bobNom...), 0, 0, 0, 0, 32, 32))
+		})
 		if pan2 != "" || err != nil || pw == nil {
 			proverFail(err, pan2)
 			return
